@@ -448,7 +448,8 @@ def _unhashable(f, content=(1, 2, 3)):
 
 
 RETURNS = {"True": True, "np_true": np.bool_(True), "one": 1, "str": "stop",
-           "list": [1], "False": False, "array": np.array([1.0])}
+           "list": [1], "False": False, "array": np.array([1.0]),
+           "array2": np.array([1.0, 0.0]), "echo": None}
 
 
 def _returning(f, what):
@@ -459,6 +460,11 @@ def _returning(f, what):
     @functools.wraps(f)
     def g(*a, **k):
         f(*a, **k)
+        if what == "echo":
+            # returns what it was given (lambda xk: xk): a point has no
+            # truth value
+            got = a[0] if a else next(iter(k.values()))
+            return np.array(getattr(got, "x", got), dtype=float, copy=True)
         return val
     return g
 
